@@ -575,3 +575,26 @@ def _s_same_eattr(eng, st, g1, u1, v1, g2, u2, v2, k):
     h = st.heap
     return Val(TBool, z3.And(h.ehas(g1.t, u1.t, v1.t, suf) == h.ehas(g2.t, u2.t, v2.t, suf),
                              z3.Implies(h.ehas(g1.t, u1.t, v1.t, suf), h.evalue(g1.t, u1.t, v1.t, suf) == h.evalue(g2.t, u2.t, v2.t, suf))))
+
+
+def _n_without_first(xs, x):
+    ys = list(xs)
+    ys.remove(x)
+    return ys
+
+
+@spec('without_first', _n_without_first)
+def _s_without_first(eng, st, xs, x):
+    nb, present, axioms, k = ops.list_remove_first(xs, x)
+    st.assume(*axioms)
+    return nb
+
+
+def _n_ends_in_digit(d):
+    return len(d) >= 1 and d[-1] in '0123456789'
+
+
+@spec('ends_in_digit', _n_ends_in_digit)
+def _s_ends_in_digit(eng, st, d):
+    last = z3.SubString(d.t, z3.Length(d.t) - 1, 1)
+    return Val(TBool, z3.And(z3.Length(d.t) >= 1, z3.Or(*[last == z3.StringVal(c) for c in '0123456789'])))
